@@ -728,5 +728,89 @@ theorem io_monitor_needs_calls_agree :
 
 example : frameCallsAgree (.arr [wNotif, wCall5, .null, .arr []]) = true := by decide
 
+/-! ## concurrent writers -/
+
+/-- what `io.cw` observes of the model: the frames of the calls, each a line of its own -/
+def modelCw (s : IOState) (msgs : List Msg) : CwObs :=
+  if (cwRun s msgs).2.contains .panic then .crash .panic
+  else .lines ((cwLines (cwRun s msgs).2).map some)
+
+theorem opWrite_request_single (s : IOState) (hp : s.panicked = false) (hc : s.outCap = 0) (id : Id) (me : Bytes) (p : Option JVal) :
+    opWrite s (.request id me p) = (s, .single (encodeMsg (.request id me p))) := by
+  simp [opWrite, hp, hc]
+
+theorem opWrite_outCap (s : IOState) (m : Msg) : (opWrite s m).1.outCap = s.outCap := by
+  unfold opWrite
+  repeat' split
+  all_goals first | rfl | (simp only []; repeat' split) <;> rfl
+
+theorem opWrite_panicked (s : IOState) (m : Msg) (h : (opWrite s m).2 ≠ .panic) (hp : s.panicked = false) :
+    (opWrite s m).1.panicked = false := by
+  unfold opWrite at h ⊢
+  repeat' split
+  all_goals first | (simp_all; done) | (simp only [] at h ⊢; repeat' split) <;> simp_all
+
+/-- in a run without a panic every call / notification is one of the lines (no outgoing batching) -/
+theorem cwRun_request_mem (msgs : List Msg) : ∀ (s : IOState), s.panicked = false → s.outCap = 0 →
+    (cwRun s msgs).2.contains .panic = false →
+    ∀ m ∈ msgs, onItsOwn 0 m = true → encodeMsg m ∈ cwLines (cwRun s msgs).2 := by
+  induction msgs with
+  | nil => intro s _ _ _ m hm; cases hm
+  | cons a t ih =>
+    intro s hp hc hnp m hm ho
+    simp only [cwRun, List.contains_cons, Bool.or_eq_false_iff] at hnp
+    have ha : (opWrite s a).2 ≠ .panic := by
+      intro h; rw [h] at hnp; simp at hnp
+    have ih' := ih (opWrite s a).1 (opWrite_panicked s a ha hp) (by rw [opWrite_outCap, hc]) hnp.2
+    simp only [cwRun, cwLines, List.filterMap_cons]
+    rcases List.mem_cons.mp hm with rfl | hm
+    · cases m with
+      | request id me p =>
+        rw [opWrite_request_single s hp hc]
+        simp [WriteOut.frame]
+      | response => simp [onItsOwn] at ho
+    · have := ih' m hm ho
+      unfold cwLines at this
+      cases hf : (opWrite s a).2.frame <;> simp [this]
+
+theorem cw_monitor_accepts_model (s : IOState) (hp : s.panicked = false) (hc : s.outCap = 0) (msgs : List Msg)
+    (hnp : (cwRun s msgs).2.contains .panic = false) :
+    cwMonitor 0 msgs (modelCw s msgs) = none := by
+  simp only [modelCw, hnp, cwMonitor]
+  have h1 : ((cwLines (cwRun s msgs).2).map some).any Option.isNone = false := by
+    simp [List.any_eq_false]
+  have h2 : msgs.find? (fun m => onItsOwn 0 m && !((cwLines (cwRun s msgs).2).map some).any (lineIs m)) = none := by
+    rw [List.find?_eq_none]
+    intro m hm
+    simp only [Bool.and_eq_true, Bool.not_eq_true', not_and, Bool.not_eq_false]
+    intro ho
+    rw [List.any_eq_true]
+    exact ⟨some (encodeMsg m), List.mem_map.mpr ⟨_, cwRun_request_mem msgs s hp hc hnp m hm ho, rfl⟩,
+      by simp [lineIs, wireDiff_self_encode]⟩
+  simp only [Bool.false_eq_true, if_false, h1, h2]
+
+/-! ## `LoggingTransport` -/
+
+/-- what the monitor's bookkeeping holds when the implementation does what the model does -/
+def passedOf : List LogEv → List Passed
+  | [] => []
+  | .read (.msg m) :: t => .read m :: passedOf t
+  | .read (.err _) :: t => .readErr :: passedOf t
+  | .write m o :: t => if o = .panic then passedOf t else .write m :: passedOf t
+
+theorem log_monitor_accepts_model (evs : List LogEv) :
+    logMonitor (passedOf evs) (.entries ((logOf evs).map some)) = none := by
+  have h : entriesAre (passedOf evs) ((logOf evs).map some) = true := by
+    induction evs with
+    | nil => rfl
+    | cons e t ih =>
+      cases e with
+      | read o => cases o <;> simp [passedOf, logOf, logRead, entriesAre, entryIs, wireDiff_self_encode, ih]
+      | write m o =>
+        by_cases hp : o = .panic
+        · simp [passedOf, logOf, logWrite, hp, ih]
+        · simp [passedOf, logOf, logWrite, hp, entriesAre, entryIs, wireDiff_self_encode, ih]
+  simp [logMonitor, h]
+
 end Mon
 end Wire
